@@ -314,6 +314,56 @@ func c02Special() []refTree {
 	dig(rootCB2, "components", "callbacks")["Site"] = gen.S{"$ref": "cbs/one.json"}
 	mk(rootCB2, map[string]gen.S{"w/cbs/one.json": cbFile("MARKCBONE", "two.json"), "w/cbs/two.json": cbFile("MARKCBTWO", "one.json")}, []refPlan{
 		{Position: "components.callbacks.Site", Kind: "callback", Form: "whole-file", Shape: "whole-file-callback-mutual-cycle", Ref: "cbs/one.json", Marker: "MARKCBONE"}})
+	// a recursive whole-file schema that names itself at several positions (each back edge has to be patched)
+	rootN := refRootSkeleton()
+	dig(rootN, "components", "schemas")["Site"] = gen.S{"$ref": "nodes/node.json"}
+	nodeRef := gen.S{"$ref": "node.json"}
+	mk(rootN, map[string]gen.S{"w/nodes/node.json": {"type": "object", "title": "MARKNODEFILE", "properties": gen.S{"left": nodeRef, "right": nodeRef, "parent": nodeRef, "kids": gen.S{"type": "array", "items": nodeRef}}, "additionalProperties": nodeRef}}, []refPlan{
+		{Position: "components.schemas.Site", Kind: "schema", Form: "whole-file", Shape: "recursive-whole-file-several-back-edges", Ref: "nodes/node.json", Marker: "MARKNODEFILE"},
+		{Position: "nestedpath:Site/left", Kind: "schema", Form: "whole-file", Shape: "recursive-whole-file-several-back-edges", Ref: "node.json", Marker: "MARKNODEFILE"},
+		{Position: "nestedpath:Site/right", Kind: "schema", Form: "whole-file", Shape: "recursive-whole-file-several-back-edges", Ref: "node.json", Marker: "MARKNODEFILE"},
+		{Position: "nestedpath:Site/parent", Kind: "schema", Form: "whole-file", Shape: "recursive-whole-file-several-back-edges", Ref: "node.json", Marker: "MARKNODEFILE"},
+		{Position: "nestedpath:Site/kids/[]", Kind: "schema", Form: "whole-file", Shape: "recursive-whole-file-several-back-edges", Ref: "node.json", Marker: "MARKNODEFILE"},
+		{Position: "nestedpath:Site/{}", Kind: "schema", Form: "whole-file", Shape: "recursive-whole-file-several-back-edges", Ref: "node.json", Marker: "MARKNODEFILE"},
+	})
+	// a library that names its own components with its own file name, several times, reached from a sibling file
+	rootO := refRootSkeleton()
+	dig(rootO, "components", "schemas")["Site"] = gen.S{"$ref": "lib/a.json#/components/schemas/Entry"}
+	mk(rootO, map[string]gen.S{
+		"w/lib/a.json": lib("a", gen.S{"Entry": gen.S{"type": "object", "title": "MARKENTRY", "properties": gen.S{"o": gen.S{"$ref": "b.json#/components/schemas/Owner"}}}}),
+		"w/lib/b.json": lib("b", gen.S{"Owner": gen.S{"type": "object", "title": "MARKOWNER", "properties": gen.S{"boss": gen.S{"$ref": "b.json#/components/schemas/Owner"}, "peer": gen.S{"$ref": "b.json#/components/schemas/Owner"}, "team": gen.S{"type": "array", "items": gen.S{"$ref": "b.json#/components/schemas/Owner"}}}}}),
+	}, []refPlan{
+		{Position: "components.schemas.Site", Kind: "schema", Form: "fragment", Shape: "library-naming-itself-by-file-name", Ref: "lib/a.json#/components/schemas/Entry", Marker: "MARKENTRY"},
+		{Position: "nestedpath:Site/o", Kind: "schema", Form: "fragment", Shape: "library-naming-itself-by-file-name", Ref: "b.json#/components/schemas/Owner", Marker: "MARKOWNER"},
+		{Position: "nestedpath:Site/o/boss", Kind: "schema", Form: "fragment", Shape: "library-naming-itself-by-file-name", Ref: "b.json#/components/schemas/Owner", Marker: "MARKOWNER"},
+		{Position: "nestedpath:Site/o/peer", Kind: "schema", Form: "fragment", Shape: "library-naming-itself-by-file-name", Ref: "b.json#/components/schemas/Owner", Marker: "MARKOWNER"},
+		{Position: "nestedpath:Site/o/team/[]", Kind: "schema", Form: "fragment", Shape: "library-naming-itself-by-file-name", Ref: "b.json#/components/schemas/Owner", Marker: "MARKOWNER"},
+	})
+	// responses that carry nothing but a description and links (201/204 style): inline, as a component, through a file
+	for _, where := range []string{"inline", "component", "file"} {
+		rootL := refRootSkeleton()
+		dig(rootL, "components", "links")["LL"] = targetObject("link", "MARKLINKROOT")
+		bare := gen.S{"description": "no content", "links": gen.S{"a": gen.S{"$ref": "#/components/links/LL"}, "b": gen.S{"$ref": "links/l.json"}}}
+		files := map[string]gen.S{"w/links/l.json": targetObject("link", "MARKLINKFILE")}
+		switch where {
+		case "inline":
+			dig(rootL, "paths", "/op1", "post", "responses")["204"] = bare
+		case "component":
+			dig(rootL, "components", "responses")["NoContent"] = bare
+			dig(rootL, "paths", "/op1", "post", "responses")["204"] = gen.S{"$ref": "#/components/responses/NoContent"}
+		case "file":
+			dig(rootL, "paths", "/op1", "post", "responses")["204"] = gen.S{"$ref": "resp/nc.json"}
+			files["w/resp/nc.json"] = gen.S{"description": "no content", "links": gen.S{"a": gen.S{"$ref": "../root.json#/components/links/LL"}, "b": gen.S{"$ref": "../links/l.json"}}}
+		}
+		refA, refB := "#/components/links/LL", "links/l.json"
+		if where == "file" {
+			refA, refB = "../root.json#/components/links/LL", "../links/l.json"
+		}
+		mk(rootL, files, []refPlan{
+			{Position: "nestedlink:204/a", Kind: "link", Form: "internal", Shape: "links-of-a-response-without-content-" + where, Ref: refA, Marker: "MARKLINKROOT"},
+			{Position: "nestedlink:204/b", Kind: "link", Form: "whole-file", Shape: "links-of-a-response-without-content-" + where, Ref: refB, Marker: "MARKLINKFILE"},
+		})
+	}
 	// JSON pointer escapes in component names
 	root5 := refRootSkeleton()
 	dig(root5, "components", "schemas")["rate~1min"] = gen.S{"type": "object", "title": "MARKTILDE1"}
@@ -508,7 +558,7 @@ func c02Tree(c *core.Ctx, t refTree, negative bool) {
 			pl := t.Plans[i]
 			var ref, marker string
 			var resolved, found bool
-			if strings.HasPrefix(pl.Position, "nested:") || strings.HasPrefix(pl.Position, "nested2:") {
+			if strings.HasPrefix(pl.Position, "nested") {
 				ref, marker, resolved, found = c02Nested(d, pl.Position)
 			} else {
 				p := positions[pl.Position]
@@ -605,6 +655,33 @@ func c02Nested(d *openapi3.T, pos string) (string, string, bool, bool) {
 		return c02Nested2(d, pos)
 	}
 	get := func(name string) *openapi3.SchemaRef { return d.Components.Schemas[name] }
+	if strings.HasPrefix(pos, "nestedpath:") {
+		// Comp/prop/prop...: "[]" = items, "{}" = additionalProperties
+		toks := strings.Split(strings.TrimPrefix(pos, "nestedpath:"), "/")
+		cur := get(toks[0])
+		for _, t := range toks[1:] {
+			if cur == nil || cur.Value == nil {
+				return "", "", false, false
+			}
+			switch t {
+			case "[]":
+				cur = cur.Value.Items
+			case "{}":
+				cur = cur.Value.AdditionalProperties.Schema
+			default:
+				cur = cur.Value.Properties[t]
+			}
+		}
+		return schemaInfo(cur)
+	}
+	if strings.HasPrefix(pos, "nestedlink:") {
+		toks := strings.Split(strings.TrimPrefix(pos, "nestedlink:"), "/")
+		op := opOf(d, "/op1")
+		if op == nil || op.Responses == nil || op.Responses.Value(toks[0]) == nil || op.Responses.Value(toks[0]).Value == nil {
+			return "", "", false, false
+		}
+		return linkInfo(op.Responses.Value(toks[0]).Value.Links[toks[1]])
+	}
 	switch pos {
 	case "nested:Zed.p.q":
 		a := get("Zed")
